@@ -321,6 +321,10 @@ from math import factorial
 def popcount(x):
     return bin(x).count("1")
 
+# quick tier = the instances measured to finish in seconds on a quiet machine. Instances in which `parameters` (content) precedes
+# the tag member make serde buffer the content (symbolic Content trees): 4-15 min or no verdict at all; they are thorough-tier only,
+# under a 150 s cap each (reported INCONCLUSIVE when they hit it).
+C05_FAST = set(['error_decode_m1_o0_c1', 'error_decode_m1_o0_c3', 'error_decode_m1_o0_c5', 'service_error_m0_o0_c0', 'service_error_m0_o0_c1', 'service_error_m0_o0_c2', 'call_decode_m00_o000_c0', 'call_decode_m01_o001_c1', 'call_decode_m16_o001_c0', 'call_strict_m00_o001', 'call_strict_m08_o003', 'call_strict_m15_o000', 'call_strict_m15_o715', 'error_decode_m0_o0_c0', 'error_decode_m1_o0_c0', 'error_decode_m1_o0_c2', 'error_decode_m1_o0_c4', 'error_decode_m2_o0_c0', 'error_decode_m3_o0_c0', 'error_decode_m3_o1_c3', 'service_error_m1_o0_c2', 'service_error_m1_o0_c4', 'service_error_m1_o0_c6', 'service_error_m1_o0_c8', 'service_error_m1_o1_c1', 'service_error_m1_o1_c3', 'service_error_m1_o1_c5', 'service_method_m0_o0_c0', 'service_method_m1_o0_c0', 'service_method_m1_o0_c2', 'service_method_m1_o0_c4', 'service_method_m1_o1_c1', 'service_method_m2_o0_c0', 'service_method_m3_o0_c0', 'service_method_m3_o0_c2', 'service_method_m3_o0_c4'])
 C05_B = "one envelope at the serde data-model level (token deserializer with serde_json's dispatch rules, cross-checked natively against serde_json)"
 NAMES6 = ["parameters", "oneway", "more", "upgrade", "x"]
 CALL_CASES = ["null", "{}", "{v: u32}", "{s: str}"]
@@ -334,7 +338,9 @@ for mask in range(32):
             # every order with the struct-variant shape; every 5th order for the other shapes of `parameters`
             if mask & 1 and case != 2 and o % 5 != case:
                 continue
-            add("C05", "p05::call_decode_m%02d_o%03d_c%d" % (mask, o, case), Q if (mask, o, case) in C05_CALL_QUICK else T, 900, 6, build="prod",
+            if not ("call_decode_m%02d_o%03d_c%d" % (mask, o, case) in C05_FAST) and (mask * 131 + o * 7 + case) % 6 != 0:
+                continue   # thorough tier: every 6th of the remaining (mask, order, case) triples
+            add("C05", "p05::call_decode_m%02d_o%03d_c%d" % (mask, o, case), Q if "call_decode_m%02d_o%03d_c%d" % (mask, o, case) in C05_FAST else T, 150, 6, build="prod",
                 body="crate::p05::call_decode_order::<%d, %d, %d>" % (mask, o, case), unwind=50, batch=16,
                 inputs="Call<Meth> decoded from an object with members {%s} in permutation #%d of them%s; method name symbolic among 3 declared + 1 undeclared, each present flag a symbolic bool, x symbolic in {number, null, object}, u32 field value symbolic" % (
                     ", ".join(members), o, ", parameters = " + CALL_CASES[case] if mask & 1 else ""),
@@ -345,7 +351,7 @@ for mask in range(16):
     for o in range(factorial(k)):
         if k >= 5 and o % 11 != 0:
             continue   # 5 and 6 members: every 11th order (all orders of <= 4 members)
-        add("C05", "p05::call_strict_m%02d_o%03d" % (mask, o), Q if (mask, o) in ((15, 0), (15, 715), (8, 3), (0, 1)) else T, 900, 6, build="prod",
+        add("C05", "p05::call_strict_m%02d_o%03d" % (mask, o), Q if "call_strict_m%02d_o%03d" % (mask, o) in C05_FAST else T, 150, 6, build="prod",
             body="crate::p05::call_decode_strict::<%d, %d>" % (mask, o), unwind=50, batch=16,
             inputs="Call<Strict> (method type with deny_unknown_fields) from {method, parameters, %s} in permutation #%d; flag values and the unknown member's value symbolic" % (", ".join(n for i, n in enumerate(NAMES_S) if mask >> i & 1), o),
             bound=C05_B, role="call_decode_strict")
@@ -356,14 +362,14 @@ for mask in range(4):
     k = 1 + popcount(mask)
     for o in range(factorial(k)):
         for case in (range(6) if mask & 1 else range(2)):
-            add("C05", "p05::service_method_m%d_o%d_c%d" % (mask, o, case), Q if (o + case) % 2 == 0 else T, 900, 6, build="prod",
+            add("C05", "p05::service_method_m%d_o%d_c%d" % (mask, o, case), Q if "service_method_m%d_o%d_c%d" % (mask, o, case) in C05_FAST else T, 150, 6, build="prod",
                 body="crate::p05::service_method_decode::<%d, %d, %d>" % (mask, o, case), unwind=50, batch=8,
                 inputs="Call<varlink_service::Method> for %s from method + {%s} in permutation #%d%s; flag value and interface name byte symbolic" % (
                     SM_CASES[case % 2], ", ".join(n for i, n in enumerate(["parameters", "more"]) if mask >> i & 1), o,
                     ", parameters = " + SP3[case // 2] if mask & 1 else ""),
                 bound=C05_B, role="service_method_decode")
         for case in (range(6) if mask & 1 else (0,)):
-            add("C05", "p05::error_decode_m%d_o%d_c%d" % (mask, o, case), Q if (o + case) % 2 == 0 else T, 900, 6, build="prod",
+            add("C05", "p05::error_decode_m%d_o%d_c%d" % (mask, o, case), Q if "error_decode_m%d_o%d_c%d" % (mask, o, case) in C05_FAST else T, 150, 6, build="prod",
                 body="crate::p05::error_decode_order::<%d, %d, %d>" % (mask, o, case), unwind=50, batch=8,
                 inputs="ReplyError-derived enum (unit, struct, renamed-field, borrowed+Option variants, undeclared name; symbolic) from error + {%s} in permutation #%d%s; field values symbolic" % (
                     ", ".join(n for i, n in enumerate(["parameters", "x"]) if mask >> i & 1), o, ", parameters = " + ERR_CASES[case] if mask & 1 else ""),
@@ -372,17 +378,17 @@ SE = ["PermissionDenied", "ExpectedMore", "MethodNotFound"]
 for mask in range(2):
     for o in range(factorial(1 + mask)):
         for case in (range(9) if mask else range(3)):
-            add("C05", "p05::service_error_m%d_o%d_c%d" % (mask, o, case), Q if (o + case) % 2 == 0 else T, 900, 6, build="prod",
+            add("C05", "p05::service_error_m%d_o%d_c%d" % (mask, o, case), Q if "service_error_m%d_o%d_c%d" % (mask, o, case) in C05_FAST else T, 150, 6, build="prod",
                 body="crate::p05::service_error_decode::<%d, %d, %d>" % (mask, o, case), unwind=50, batch=8,
                 inputs="varlink_service::Error %s from error%s in permutation #%d%s" % (SE[case % 3], " + parameters" if mask else "", o, ", parameters = " + SP3[case // 3] if mask else ""),
                 bound=C05_B, role="service_error_decode")
-add("C05", "p05::call_roundtrip", Q, 900, 6, build="prod", unwind=50,
+add("C05", "p05::call_roundtrip", T, 1500, 12, build="prod", unwind=50,
     inputs="Call<Meth> with symbolic variant (unit / struct / borrowed), symbolic u32 field and 8 flag sets: encode to tokens, check shape, decode, compare",
     bound="one call", role="call_roundtrip")
-add("C05", "p05::error_encode_roundtrip", Q, 900, 6, build="prod", unwind=50,
+add("C05", "p05::error_encode_roundtrip", T, 1500, 12, build="prod", unwind=50,
     inputs="ReplyError-derived enum value with symbolic variant (2 unit, struct, renamed field, borrowed+Option) and symbolic field values: encode, check shape and wire names, decode, compare",
     bound="one error", role="error_encode_roundtrip")
-add("C05", "p05::reply_roundtrip", Q, 900, 6, build="prod", unwind=50,
+add("C05", "p05::reply_roundtrip", T, 1500, 12, build="prod", unwind=50,
     inputs="Reply<Out> with parameters present/absent and continues in {None, false, true} (symbolic): encode, check shape, decode from either member order, compare",
     bound="one reply", role="reply_roundtrip")
 
